@@ -27,6 +27,13 @@ def opOf : String → Option (Int → Int → Int)
   | "lor" => some (fun a b => if a ≠ 0 ∨ b ≠ 0 then 1 else 0)
   | _ => none
 
+/-- `op_type::identity()` of the library functors that declare one (add, multiply); the order-revealing functor of the
+    harness and the others have none -/
+def identOf : String → Option Int
+  | "add" => some 0
+  | "mul" => some 1
+  | _ => none
+
 def dataOf (a : Args) (s : Shape) : Option (List Int) :=
   match a.get? "data" with
   | none => some ((List.range (prod s)).map (fun k => ((k + 1 : Nat) : Int)))
@@ -55,13 +62,14 @@ def handle : Handler := fun op a =>
   match op with
   | "reduce" => orBad do
       let f ← (a.get? "op").bind opOf
+      let ident := (a.get? "op").bind identOf
       let s ← a.nats "shape"
       let axis ← a.optInts "axis"
       let keep := (a.get? "keepdims") == some "1"
       let init ← a.optInt "init"
       let data ← dataOf a s
       let arr := arrOfData s data
-      match reduce f init arr axis keep with
+      match reduceId ident f init arr axis keep with
       | none => pure "ub"
       | some v =>
         match evalFlat v with
@@ -131,7 +139,7 @@ def handle : Handler := fun op a =>
       let a1 ← a.int "axis1"
       let a2 ← a.int "axis2"
       let data ← dataOf a s
-      match trace (· + ·) (arrOfData s data) off a1 a2 with
+      match trace (· + ·) (some 0) (arrOfData s data) off a1 a2 with
       | none => pure "ub"
       | some v =>
         match evalFlat v with
